@@ -125,9 +125,15 @@ def Payload.hashDiffer (e : Ty) (a b : Payload) : Bool :=
   | .ok x, .ok y => x != y
   | _, _ => false
 
+/-- `RawEquals` returns true -/
+def Payload.rawTrue (e : Ty) (a b : Payload) : Bool :=
+  match Value.rawEqP e a e b with
+  | .ok true => true
+  | _ => false
+
 /-- any two members are `RawEquals` or have different hash texts (no `Less` tie) -/
 def Payload.tieFree (e : Ty) (l : List Payload) : Bool :=
-  l.all fun a => l.all fun b => rawB e a b || Payload.hashDiffer e a b
+  l.all fun a => l.all fun b => Payload.rawTrue e a b || Payload.hashDiffer e a b
 
 /-! ### capsule types -/
 
@@ -143,6 +149,10 @@ structure CapsuleOps where
   hashKey : Option (Nat → String)
 
 namespace CapsuleOps
+
+/-- `CapsuleOps.assertValid` (cty/capsule_ops.go:110): `CapsuleWithOps` panics when
+`Equals` is set without `RawEquals` -/
+def valid (ops : CapsuleOps) : Bool := !(ops.rawEquals.isNone && ops.equals.isSome)
 
 /-- `Value.RawEquals` on two known non-null capsule values of one type
 (cty/value_ops.go:589): the type's `RawEquals` operation, else pointer identity -/
